@@ -55,9 +55,20 @@ Definition check_sort : P (list Z) :=
   let j2 := sortedb itv_leb obs && list_eqb update_eqb (isort less inp) (isort less obs) in
   ret (code_if j1 1 ++ code_if j2 2)%list.
 
+(* tag 3  BULK: children later_versions nruns | status count ordered runs_identical
+   one parent version; every child has one version before it and [later_versions] visible versions
+   after it, so the SPECIFICATION (C11 updates_exact, last parent version) demands exactly
+   children * later_versions updates; order and run-to-run identity are observed by the harness on
+   the full result (too large to ship). *)
+Definition check_bulk : P (list Z) :=
+  nch <- pint ;; nver <- pint ;; nruns <- pint ;;
+  st <- pint ;; count <- pint ;; ordered <- pbool ;; identical <- pbool ;;
+  let j := (st =? 0) && (count =? nch * nver) && ordered && identical in
+  ret (code_if j 2)%list.
+
 Definition check_case (t : toks) : list Z :=
   match parse_all (tag <- pint ;;
-                   if tag =? 1 then check_ann else if tag =? 2 then check_sort else pfail) t with
+                   if tag =? 1 then check_ann else if tag =? 2 then check_sort else if tag =? 3 then check_bulk else pfail) t with
   | Some codes => codes
   | None => [0]
   end.
